@@ -227,11 +227,20 @@ def run_unit(unit, variant, multiple_errors=20, extra_args=(), rlimit=None):
 
 
 def unit_variants(unit):
-    txt = open(os.path.join(VERIF, "units", unit, "unit.rs")).read()
-    # includes may carry variants too, ignored here on purpose (prelude has none)
+    """variant names used by //@only: markers in the unit template and everything it includes"""
     names = set()
-    for m in re.finditer(r"//@only:([\w,]+)", txt):
-        names |= set(m.group(1).split(","))
+    seen = set()
+
+    def scan(path):
+        if path in seen or not os.path.exists(path):
+            return
+        seen.add(path)
+        txt = open(path).read()
+        for m in re.finditer(r"//@only:([\w,]+)", txt):
+            names.update(m.group(1).split(","))
+        for m in re.finditer(r"^\s*//@\s*include\s+(\S+)\s*$", txt, re.M):
+            scan(os.path.join(VERIF, m.group(1)))
+    scan(os.path.join(VERIF, "units", unit, "unit.rs"))
     return names
 
 
